@@ -209,7 +209,9 @@ SHAPES = {
     'ray_ellipsoid': {
         'params': _P, 'requires': {'no_normal_requested': 'normal == NULL', 'sizes': 'size[0] > 0 and size[1] > 0 and size[2] > 0'}, 'assigns': [],
         'ensures': {'minus_one_or_nonneg': 'result == -1 or result >= 0',
-                    'hit_point_lies_on_the_ellipsoid': 'implies(result >= 0, ON_ELLIPSOID(result))'},
+                    'hit_point_lies_on_the_ellipsoid': 'implies(result >= 0, ON_ELLIPSOID(result))',
+                    'no_nearer_point_of_the_ray_lies_on_the_ellipsoid': 'implies(result >= 0, forall_real(lambda y: implies(0 <= y and y < result, not ON_ELLIPSOID(y))))',
+                    'minus_one_only_if_the_ray_misses': 'implies(result < 0 and SI(0)*LV(0)*LV(0) + SI(1)*LV(1)*LV(1) + SI(2)*LV(2)*LV(2) >= dbl(1e-15), forall_real(lambda y: implies(y >= 0, not ON_ELLIPSOID(y))))'},
         'no_error': True},
     'ray_cylinder': {
         'params': _P, 'requires': {'no_normal_requested': 'normal == NULL', 'sizes': 'size[0] >= 0 and size[1] >= 0'}, 'assigns': [],
@@ -220,7 +222,9 @@ SHAPES = {
     'ray_box': {
         'params': dict(_P, all={'null': True}), 'requires': {'no_outputs_requested': 'normal == NULL and all == NULL', 'sizes': 'size[0] >= 0 and size[1] >= 0 and size[2] >= 0'}, 'assigns': [],
         'ensures': {'minus_one_or_nonneg': 'result == -1 or result >= 0',
-                    'hit_point_lies_on_a_face': 'implies(result >= 0, ON_FACE(result, 0, 1, 2) or ON_FACE(result, 1, 0, 2) or ON_FACE(result, 2, 0, 1))'},
+                    'hit_point_lies_on_a_face': 'implies(result >= 0, ON_FACE(result, 0, 1, 2) or ON_FACE(result, 1, 0, 2) or ON_FACE(result, 2, 0, 1))',
+                    'no_nearer_point_of_the_ray_lies_on_a_face_it_is_not_parallel_to': 'implies(result >= 0, forall_real(lambda y: implies(0 <= y and y < result, '
+                        'not (absr(LV(0)) > dbl(1e-15) and ON_FACE(y, 0, 1, 2)) and not (absr(LV(1)) > dbl(1e-15) and ON_FACE(y, 1, 0, 2)) and not (absr(LV(2)) > dbl(1e-15) and ON_FACE(y, 2, 0, 1)))))'},
         'loops': {0: {'unroll': 3}, 1: {'unroll': 2}},
         'no_error': True},
 }
@@ -263,3 +267,16 @@ RAYGEOM_FULL = {
         'error_only_if': 'not (geomtype == mjGEOM_PLANE or geomtype == mjGEOM_SPHERE or geomtype == mjGEOM_CAPSULE or geomtype == mjGEOM_ELLIPSOID or geomtype == mjGEOM_CYLINDER or geomtype == mjGEOM_BOX)',
     },
 }
+
+
+# ray_sphere against its full contract (nearest point, and -1 only for a miss); callers keep using the short form above, so that the
+# quantified clauses do not enter their queries
+SPHERE_FULL = {'__auto_inline__': True, '__no_merge__': True, 'ray_quad': QUAD['ray_quad'],
+               'ray_sphere': dict(QUAD['ray_sphere'], ensures=dict(QUAD['ray_sphere']['ensures'], **{
+                   'no_nearer_point_of_the_ray_lies_on_the_sphere': 'implies(result >= 0, forall_real(lambda y: implies(0 <= y and y < result, '
+                                                                    '(pnt[0] + y*vec[0] - pos[0])*(pnt[0] + y*vec[0] - pos[0]) + (pnt[1] + y*vec[1] - pos[1])*(pnt[1] + y*vec[1] - pos[1])'
+                                                                    ' + (pnt[2] + y*vec[2] - pos[2])*(pnt[2] + y*vec[2] - pos[2]) != dist_sqr)))',
+                   'minus_one_only_if_the_ray_misses': 'implies(result < 0 and vec[0]*vec[0] + vec[1]*vec[1] + vec[2]*vec[2] >= dbl(1e-15), forall_real(lambda y: implies(y >= 0, '
+                                                       '(pnt[0] + y*vec[0] - pos[0])*(pnt[0] + y*vec[0] - pos[0]) + (pnt[1] + y*vec[1] - pos[1])*(pnt[1] + y*vec[1] - pos[1])'
+                                                       ' + (pnt[2] + y*vec[2] - pos[2])*(pnt[2] + y*vec[2] - pos[2]) != dist_sqr)))',
+               }))}
